@@ -31,6 +31,7 @@ func runC08(r *Run, verifDir string) {
 	r.Rule("C08.K10", "the read and write loops tear the connection down on every stream-error exit", 2)
 	c.kLoopErrorExits("C08.K10")
 	c08K7AcceptLoop(r, "C08.K7")
+	r.Import("C08.K13", "the connection goroutines decode client bytes with no recover(): every index/slice of input-derived data and every fixed-width read in the decoders is covered by a length guard, so no request can crash the process from the read loop", 30, "C02", "C02.R4", nil)
 	c08K8NilItems(r)
 	c08K9RequestsOnly(r)
 	c08K3RecoveredError(r, "C08.K3")
